@@ -19,7 +19,7 @@ from .core import (Ctx, Undecided, Sym, SInt, SBool, SStr, SSet, SSeq, Lit, IntL
 STRUCTURAL = {
     builtins.list, builtins.tuple, builtins.zip, builtins.enumerate, builtins.iter, builtins.next,
     builtins.reversed, builtins.id, builtins.type, builtins.callable, builtins.hasattr,
-    builtins.vars, builtins.print, builtins.repr, builtins.dir,
+    builtins.vars, builtins.print, builtins.repr, builtins.dir, builtins.slice,
     itertools.chain, copy.copy,
 }
 STRUCTURAL_METHODS = {
@@ -1124,6 +1124,7 @@ class Models(object):
     def str_join(self, sep, items):
         if isinstance(sep, SStr):
             raise Undecided("symbolic join separator")
+        items = _sole_run(items)
         if isinstance(items, SSetStr):
             # join of a set of symbolic strings: an unconstrained string (sound over-approximation)
             v = self.ctx.fresh_str("joined")
@@ -1330,11 +1331,43 @@ class Models(object):
             if not ctx.branch(v.length > 0, "loop-nonempty"):
                 return None
             ctx.assume(z3.And(i >= 0, i < v.length))
+            # `for x in seq: acc.append(g(x))` with an int-valued g: acc gains the run [g(x) for x in seq]  (= acc.extend(map(g, seq)))
+            st0 = node.body[0].value if len(node.body) == 1 else None
+            if isinstance(st0, ast.Call) and isinstance(st0.func, ast.Attribute) and st0.func.attr == "append" and isinstance(st0.func.value, ast.Name) \
+                    and len(st0.args) == 1 and not st0.keywords and isinstance(node.target, ast.Name):
+                acc = self.interp.eval(st0.func.value, env)
+                if type(acc) is list:
+                    self.interp.assign(node.target, v.elem(i), env)
+                    val = self.interp.eval(st0.args[0], env)
+                    if isinstance(val, int) and not isinstance(val, bool):
+                        val = SInt(z3.IntVal(val))
+                    if isinstance(val, SInt):
+                        from .sqlmodel import Splice
+                        e = val.e
+                        run_ = SSeq(v.length, lambda j, e=e, i=i: SInt(z3.substitute(e, (i, j if isinstance(j, z3.ExprRef) else z3.IntVal(j)))), name="map(%s)" % v.name, kind="map-int")
+                        self.used("pointwise-comprehension-rule(append in a loop over an abstract sequence)")
+                        acc.append(Splice(run_))
+                        return None
+                    raise Undecided("loop over an abstract sequence appending non-integer values to a list")
+            # the body must not carry state from one iteration to the next through a container either: snapshot the local
+            # containers, run the body for the generic index, and refuse if one of them changed
+            snap = []
+            e_ = env
+            seen = set()
+            while e_ is not None:
+                for nm, obj in list(getattr(e_, "vars", {}).items()):
+                    if type(obj) in (list, dict, set) and id(obj) not in seen:
+                        seen.add(id(obj))
+                        snap.append((nm, obj, len(obj)))
+                e_ = getattr(e_, "parent", None)
             ctx.effect("forall-begin", v, i)
             self.used("accumulation-rule(for over abstract sequence, effect-only body)")
             self.interp.assign(node.target, v.elem(i), env)
             self.interp.exec_block(node.body, env)
             ctx.effect("forall-end", v, i)
+            for nm, obj, n0 in snap:
+                if len(obj) != n0:
+                    raise Undecided("loop over an abstract sequence changes the local container %r (state carried between iterations)" % nm)
             return None
         raise Undecided("iteration over %r" % (v,))
 
@@ -1706,6 +1739,7 @@ class Models(object):
         return False
 
     def b_map(self, fn, *its):
+        its = tuple(_sole_run(x) for x in its)
         if len(its) == 1 and fn is builtins.str and _as_sset(its[0]) is not None:
             ss = _as_sset(its[0])
             return SSeq(ss.card, ss, name="map(str,%s)" % ss.name, kind="setstr")
@@ -1722,6 +1756,22 @@ class Models(object):
                 self.used("per-character-map-rule")
                 return SSeq(self.ctx.fresh_int("nchars"), v, name="chars", kind="qchars")
             raise Undecided("map over the characters of a symbolic string")
+        if len(its) == 1 and isinstance(its[0], SSeq) and its[0].kind not in ("setlist", "map-tuple"):
+            # map(g, <abstract sequence>) with an int-valued g  ==  [g(x) for x in seq]   (pointwise rule)
+            seq = its[0]
+            ctx = self.ctx
+            if not ctx.branch(seq.length > 0, "map-nonempty"):
+                return iter([])
+            i0 = ctx.fresh_int("j")
+            ctx.assume(z3.And(i0 >= 0, i0 < seq.length))
+            v = self.interp.call(fn, [seq.elem(i0)], {})
+            if isinstance(v, int) and not isinstance(v, bool):
+                v = SInt(z3.IntVal(v))
+            if isinstance(v, SInt):
+                e = v.e
+                self.used("pointwise-comprehension-rule(map over abstract sequence)")
+                return SSeq(seq.length, lambda j, e=e, i0=i0: SInt(z3.substitute(e, (i0, j if isinstance(j, z3.ExprRef) else z3.IntVal(j)))), name="map(%s)" % seq.name, kind="map-int")
+            raise Undecided("map over an abstract sequence with a non-integer result")
         if len(its) == 1 and isinstance(its[0], SSeq):
             raise Undecided("map over abstract sequence")
         lists = [list(self.interp.iterate(i)) for i in its]
@@ -2019,6 +2069,14 @@ _WIT = {}
 def seq_witness(q):
     e = _WIT.get(id(q))
     return e[1] if e and e[0] is q else None
+
+
+def _sole_run(x):
+    """a list that consists of exactly one abstract run (built by appending in a loop over / extending with an abstract
+    sequence) IS that sequence"""
+    if type(x) is list and len(x) == 1 and _is_splice(x[0]):
+        return x[0].seq
+    return x
 
 
 def _is_splice(x):
